@@ -56,6 +56,7 @@ def run(ctx):
     stale(ctx)
     freeze(ctx)
     pair(ctx)
+    required_keys(ctx)
     from .c19 import json_recursion
     json_recursion(ctx)
     namespace(ctx)
@@ -358,3 +359,55 @@ def namespace(ctx):
                 if ('parent_namespace' in a0.fields or 'parent_namespace' in a1.fields) and any(strip_generics(cname(c)).endswith('Name::namespace') for c in a0.calls + a1.calls):
                     ok = True
         ctx.ob('NAMESPACE', '%s-compares-parent' % nm, ok, short_loc(b.span) if b else None, '%s compares the name\'s namespace with the parent namespace: %s' % (nm, ok))
+
+
+def key_sites(b, key):
+    out = []
+    for bb, t in b.calls():
+        if (t.get('callee') or '').endswith('SerializeMap::serialize_entry'):
+            o = origin(b, t['args'][1])
+            if {x for x in o.consts() if isinstance(x, str)} == {key} and len(o.atoms) == 1:
+                out.append(bb)
+    return out
+
+
+def required_keys(ctx):
+    """keys the parser requires are written unconditionally by the arm that owns them"""
+    f = ctx.f
+    kb = None
+    for b in f.body_list:
+        if fn_label(b) == '<' + SER + 'SerializeSchema as serde_core::ser::Serialize>::serialize' and 'SchemaKey>' in (b.j.get('self_ty') or ''):
+            kb = b
+    if kb is None:
+        ctx.ob('REQUIRED', 'anchor', False, None, 'renderer not found')
+        return
+    regs = {}
+    for r in enum_regions(kb, REG):
+        for v in r.variants:
+            regs[v] = r
+    want = {'Array': ['items'], 'Map': ['values'], 'Record': ['fields'], 'Enum': ['symbols'], 'Fixed': ['size']}
+    for kind, keys in want.items():
+        r = regs.get(kind)
+        for k in keys:
+            ok = False
+            if r is not None:
+                sites = [bb for bb in key_sites(kb, k) if bb in r.blocks]
+                oks = [x for x in kb.exits()]
+                # every way out of the arm that does not error passes the key (named arms: on the not-a-reference path)
+                ends = [x for x in kb.live_blocks() if kb.term(x)['k'] == 'call' and (kb.term(x).get('callee') or '').endswith('SerializeMap::end') and x in r.blocks]
+                ok = bool(sites) and bool(ends) and all(must_pass(kb, r.entry, [e], sites) for e in ends)
+            ctx.ob('REQUIRED', '%s/%s' % (kind, k), ok, short_loc(kb.span), 'every completed JSON object of a %s carries "%s": %s' % (kind, k, ok))
+    # the closure writing type + logical type: "type" on every path; decimal: scale and precision on every path
+    for cb in f.closures_of(kb):
+        ts = key_sites(cb, 'type')
+        if not ts:
+            continue
+        oks = ok_return_blocks(cb)
+        okt = bool(oks) and all(must_pass(cb, 0, [o], ts) for o in oks)
+        ctx.ob('REQUIRED', 'type', okt, short_loc(cb.span), '"type" is written on every successful path: %s' % okt)
+        for r in enum_regions(cb, LT):
+            if 'Decimal' in r.variants:
+                for k in ('scale', 'precision'):
+                    ks = [bb for bb in key_sites(cb, k) if bb in r.blocks]
+                    okk = bool(ks) and bool(oks) and all(must_pass(cb, r.entry, [o], ks) for o in oks)
+                    ctx.ob('REQUIRED', 'decimal/%s' % k, okk, short_loc(cb.span), 'a decimal always carries "%s" (the parser requires it): %s' % (k, okk))
